@@ -720,16 +720,30 @@ class SupvisorsServerOptions(ServerOptions):
         # update the parser value
         self.logger.debug(f'SupvisorsServerOptions.update_numprocs: update parser section={section}'
                           f' with numprocs={numprocs}')
-        self.parser[section]['numprocs'] = str(numprocs)
         # get the existing program configuration
         program = self.program_configs[program_name]
+        # keep the elements needed to restore the configuration if the new value cannot be applied
+        ref_numprocs = program.numprocs
+        ref_process_configs = {process.name: self.process_configs[process.name]
+                               for process_list in program.group_config_info.values()
+                               for process in process_list
+                               if process.name in self.process_configs}
+        self.parser[section]['numprocs'] = str(numprocs)
         program.numprocs = numprocs
         # rebuild the process configs from the new Supervisor configuration
         group_configs = {}
-        for group_name, process_list in program.group_config_info.items():
-            # remove the former process configuration
-            for process in process_list:
-                self.process_configs.pop(process.name, None)
-            # build the new configuration
-            group_configs[group_name] = self.processes_from_section(self.parser, section, group_name, program.klass)
+        try:
+            for group_name, process_list in program.group_config_info.items():
+                # remove the former process configuration
+                for process in process_list:
+                    self.process_configs.pop(process.name, None)
+                # build the new configuration
+                group_configs[group_name] = self.processes_from_section(self.parser, section, group_name,
+                                                                        program.klass)
+        except ValueError:
+            # numprocs not applicable to this program: leave the configuration as it was
+            self.parser[section]['numprocs'] = str(ref_numprocs)
+            program.numprocs = ref_numprocs
+            self.process_configs.update(ref_process_configs)
+            raise
         return group_configs
